@@ -92,3 +92,8 @@ reg("C11", "model_checking", "explicit-state BFS of the real simulated lib.memor
     "the full reachable graph is explored from reset with every action (every clock/reset subset, every (addr, data, enable), testbench row writes) in every state; after every transition the rows, every read output and the RTLIL "
     "memory/outputs are compared with the model.",
     "Trusted: the ~60-line model in vf/props/c11.py (from docs/stdlib/memory.rst) and vf/rtlil/interp.py. Undefined points (pre-first-capture data, out-of-depth reads, same-bit double writes) are adopted/excluded and counted.")
+reg("C03", "model_checking", "explicit-state BFS of the real simulated design (registers, memory rows, read-port data, clock and async-reset levels in the state) in product with a register-level reference model, over a bounded-exhaustive family of domain kinds and wrapper nestings",
+    "For every combination of 1-2 clock domains (pos/neg x sync/async/reset-less) and every (submodule, top) nesting of <=2 (3) ResetInserter / EnableInserter / DomainRenamer wrappers applied to a two-module design with a signed signal "
+    "split between domains and modules, reset-less registers and a memory with write and sync read ports, the full reachable state graph is explored: in every state all input valuations followed by every clock-subset toggle "
+    "(simultaneous edges included) or async-reset flip; the complete state is compared with the model after each event; shortest paths are replayed from reset.",
+    "Trusted: vf/ref/c03_model.py (~300 lines, from the statement; the guide's ResetInserter-inside-EnableInserter example contradicts both the statement and the implementation and is not used). Read-port data under a reset is accepted as either normal or init.")
